@@ -355,6 +355,34 @@ def r63e(F):
     return r
 
 
+def r61t(F):
+    r = RuleResult("R61t", "text content reaches the writer uninspected",
+                   "the string that write_node takes from a {text = s} node (get_str_val whose result reaches XmlEvent::characters) is "
+                   "handed to no str method on the way: whether the text event is written depends on the value being NULL only, never "
+                   "on what the string contains (a blank text node is white space the document asked for), and the string is not "
+                   "transformed (trimmed, replaced) before the writer escapes it", floor=1)
+    wn = F.fn(X + "write_node")
+    o = Origins(wn)
+    chars = [(b, t) for b, t in wn.calls() if callee(t).endswith("XmlEvent::characters")]
+    need(chars, "write_node: no XmlEvent::characters call")
+    text_calls = {l for b, t in chars for l in o.at(t["args"][0], b) if l[0] == "call" and str(l[1]).endswith("get_str_val")}
+    need(text_calls, "write_node: no characters event is fed from get_str_val (the text slot is read some other way)")
+    STR = ("core::str::<impl str>::", "alloc::str::<impl str>::", "alloc::string::String::")
+    HARMLESS = ("::as_str", "::as_ref", "::as_bytes", "::clone", "::borrow", "::deref", "::to_string", "::to_owned", "::from", "::into")
+    bad = []
+    for b, t in wn.calls():
+        c = callee(t)
+        if not c.startswith(STR) or c.endswith(HARMLESS):
+            continue
+        if any(text_calls & set(o.at(a, b)) for a in t["args"]):
+            bad.append((b, c))
+    r.inst("write_node:text:uninspected", wn.where(bad[0][0]) if bad else wn.where(chars[0][0]), not bad,
+           "the text string goes from get_str_val to XmlEvent::characters without a str method applied to it" if not bad else
+           "the text of a {text = s} node is handed to %s before it is written: the text event depends on the string's content "
+           "(a white-space-only text node is dropped or altered, and {name=, text=\"  \"} is no longer the error it must be)" % bad[0][1].split("::")[-1])
+    return r
+
+
 from . import c11 as _c11
 
-RULES = [r61, r69, r62, r90, r63, r69v, r63e, _c11.r72]
+RULES = [r61, r69, r62, r90, r63, r69v, r63e, r61t, _c11.r72]
